@@ -95,7 +95,6 @@ type field struct {
 	v    uint64 // varint / fixed value
 	b    []byte
 	pad  int // extra continuation bytes for a non-minimal varint value
-	name string
 }
 
 func uvarint(x uint64) []byte {
@@ -637,8 +636,6 @@ func TestC25(t *testing.T) {
 			}
 		}
 	}
-	off := r.Intn(4)                                // which positions are hit varies with the seed
-	_ = off
 	flipAll(hs[2], e.Pick(4, 1))  // ed25519 v2only+key
 	flipAll(hs[0], e.Pick(13, 1)) // ed25519 default (legacy fields present)
 	flipAll(hs[5], e.Pick(23, 2)) // secp256k1 v2only+key
@@ -820,7 +817,7 @@ func TestC25(t *testing.T) {
 		h.emit("garbage:random bytes", keys[r.Intn(len(keys))], b)
 	}
 	// random multi-field mutations of honest records
-	nm := e.Pick(40, 3000)
+	nm := e.Pick(40, 1500)
 	for i := 0; i < nm; i++ {
 		ho := hs[r.Intn(len(hs))]
 		if ho.k.kind == "rsa" && r.Intn(3) != 0 {
